@@ -271,6 +271,10 @@ func (e *Engine) preludeFull() string {
 (declare-fun slt (Str Str) Bool)
 (declare-fun qmarks (Str) Int)
 (declare-fun nlp (Str Int) Int)
+(declare-fun chr (Int) Str)
+(declare-fun nosep (Str Int) Bool)
+(declare-fun firstb (Str) Int)
+(declare-fun lastb (Str) Int)
 (declare-fun box_Str (Str) Int)
 (declare-fun unbox_Str (Int) Str)
 (declare-fun box_Int (Int) Int)
@@ -282,6 +286,21 @@ func (e *Engine) preludeFull() string {
 (assert (forall ((s Bool)) (! (= (unbox_Bool (box_Bool s)) s) :pattern ((box_Bool s)))))
 (assert (= (slen str_empty) 0))
 (assert (= (qmarks str_empty) 0))
+(assert (forall ((c Int)) (! (and (= (slen (chr c)) 1) (=> (and (<= 0 c) (< c 256)) (= (sat (chr c) 0) c))) :pattern ((chr c)))))
+(assert (forall ((a Str) (b Str) (c Int)) (! (= (nosep (scat a b) c) (and (nosep a c) (nosep b c))) :pattern ((nosep (scat a b) c)))))
+(assert (forall ((c Int)) (! (nosep str_empty c) :pattern ((nosep str_empty c)))))
+(assert (forall ((d Int) (c Int)) (! (=> (and (<= 0 d) (< d 256)) (= (nosep (chr d) c) (not (= d c)))) :pattern ((nosep (chr d) c)))))
+(assert (forall ((a Str) (b Str) (c Str)) (! (= (scat (scat a b) c) (scat a (scat b c))) :pattern ((scat (scat a b) c)))))
+(assert (forall ((a1 Str) (a2 Str) (b Str) (a3 Str) (b2 Str) (c Int)) (! (=> (and (nosep a1 c) (nosep a2 c) (nosep a3 c) (= (scat a1 (scat a2 (scat (chr c) b))) (scat a3 (scat (chr c) b2)))) (and (= a3 (scat a1 a2)) (= b b2))) :pattern ((scat a1 (scat a2 (scat (chr c) b))) (scat a3 (scat (chr c) b2))))))
+(assert (forall ((a1 Str) (x Str) (a2 Str) (b Str) (a3 Str) (b2 Str) (c Int)) (! (=> (and (nosep a1 c) (nosep x c) (nosep a2 c) (nosep a3 c) (= (scat a1 (scat x (scat a2 (scat (chr c) b)))) (scat a3 (scat (chr c) b2)))) (and (= a3 (scat a1 (scat x a2))) (= b b2))) :pattern ((scat a1 (scat x (scat a2 (scat (chr c) b)))) (scat a3 (scat (chr c) b2))))))
+(assert (= (firstb str_empty) (- 1)))
+(assert (= (lastb str_empty) (- 1)))
+(assert (forall ((a Str) (b Str)) (! (= (firstb (scat a b)) (ite (> (slen a) 0) (firstb a) (firstb b))) :pattern ((firstb (scat a b))))))
+(assert (forall ((a Str) (b Str)) (! (= (lastb (scat a b)) (ite (> (slen b) 0) (lastb b) (lastb a))) :pattern ((lastb (scat a b))))))
+(assert (forall ((c Int)) (! (=> (and (<= 0 c) (< c 256)) (and (= (firstb (chr c)) c) (= (lastb (chr c)) c))) :pattern ((chr c)))))
+(assert (forall ((s Str)) (! (=> (> (slen s) 0) (and (= (firstb s) (sat s 0)) (= (lastb s) (sat s (- (slen s) 1))))) :pattern ((firstb s)))))
+(assert (forall ((s Str)) (! (=> (> (slen s) 0) (= (lastb s) (sat s (- (slen s) 1)))) :pattern ((lastb s)))))
+(assert (forall ((a Str) (b Str) (a2 Str) (b2 Str) (c Int)) (! (=> (and (nosep a c) (nosep a2 c) (= (scat a (scat (chr c) b)) (scat a2 (scat (chr c) b2)))) (and (= a a2) (= b b2))) :pattern ((scat a (scat (chr c) b)) (scat a2 (scat (chr c) b2))))))
 (assert (forall ((s Str)) (! (= (nlp s 0) 0) :pattern ((nlp s 0)))))
 (assert (forall ((s Str) (j Int) (k Int)) (! (=> (and (<= 0 j) (<= j k)) (<= (nlp s j) (nlp s k))) :pattern ((nlp s j) (nlp s k)))))
 (assert (forall ((s Str)) (! (>= (qmarks s) 0) :pattern ((qmarks s)))))
@@ -308,6 +327,15 @@ func (e *Engine) preludeFull() string {
 		fmt.Fprintf(&b, "(declare-const %s Str) ; %q\n", l.v, truncate(l.k, 60))
 		fmt.Fprintf(&b, "(assert (= (slen %s) %d))\n", l.v, len(l.k))
 		fmt.Fprintf(&b, "(assert (= (qmarks %s) %d))\n", l.v, strings.Count(l.k, "?"))
+		if len(l.k) == 1 {
+			fmt.Fprintf(&b, "(assert (= %s (chr %d)))\n", l.v, l.k[0])
+		}
+		if len(l.k) > 0 {
+			fmt.Fprintf(&b, "(assert (and (= (firstb %s) %d) (= (lastb %s) %d)))\n", l.v, l.k[0], l.v, l.k[len(l.k)-1])
+		}
+		for _, c := range []byte{':', '#', '@', '(', ')'} {
+			fmt.Fprintf(&b, "(assert (= (nosep %s %d) %v))\n", l.v, c, !strings.ContainsRune(l.k, rune(c)))
+		}
 		if len(l.k) <= 24 {
 			for i := 0; i < len(l.k); i++ {
 				fmt.Fprintf(&b, "(assert (= (sat %s %d) %d))\n", l.v, i, l.k[i])
